@@ -76,33 +76,37 @@ def _expr(e):
     return k, st
 
 
-def parse_function(text):
-    """offset program of one generated accessor (text of the whole function) -> list of ops, or None (not understood)"""
+CWIDTH = {"int8_t": 1, "uint8_t": 1, "int16_t": 2, "uint16_t": 2, "int32_t": 4, "uint32_t": 4, "int64_t": 8, "uint64_t": 8, "float": 4, "double": 8,
+          "char": 1}
+_AT = r"\*(?:\((\w+)\*\)\(\(char\*\)obj\+offset\)|\(\((\w+)\*\)obj\+offset\))"          # *(T*)((char*)obj+offset)  |  *((T*)obj+offset)
+_RE_GET = re.compile(r"^return" + _AT + r";$")
+_RE_SET = re.compile(r"^" + _AT + r"=value;$")
+_RE_ARR = re.compile(r"^int64_t\*arr=\(int64_t\*\)\(\(char\*\)obj\+offset\);$")
+_RE_RETEXPR = re.compile(r"^return([\w\[\]*]+);$")
+
+
+def parse_function(text, kind="getp"):
+    """one generated accessor (text of the whole function) -> dict(ops, c, w) in the terms of XoCapi!AccOf, or None (not understood)"""
     body = text[text.index("{") + 1:text.rindex("}")]
     body = ERASE.sub("", body)
-    ops, seen_init, seen_ret = [], False, False
-    for raw in body.split("\n"):
-        ln = re.sub(r"\s+", "", raw)
-        if not ln:
-            continue
-        if seen_ret:
-            return None
-        if _RE_INIT.match(ln):
-            if seen_init or ops:
-                return None
-            seen_init = True
-            continue
-        if _RE_RET.match(ln):
-            seen_ret = True
-            continue
-        if not seen_init:
-            return None
+    lines = [re.sub(r"\s+", "", raw) for raw in body.split("\n")]
+    lines = [ln for ln in lines if ln]
+    ops, c, w = [], 0, []
+    if kind == "len" and len(lines) == 1:           # static shape: the constant is returned, no offset program
+        m = re.fullmatch(r"return(\d+);", lines[0])
+        return dict(ops=[], c=int(m.group(1)), w=[]) if m else None
+    if not lines or not _RE_INIT.match(lines[0]):
+        return None
+    i = 1
+    while i < len(lines):
+        ln = lines[i]
         m = _RE_SV.match(ln)
         if m:
             e = _expr(m.group(3))
             if e is None or e[1]:
                 return None
             ops.append(dict(op="sv", k=e[0], st=[[int(m.group(2)), 0]], **{"as": 0}))
+            i += 1
             continue
         m = _RE_LD.match(ln)
         if m:
@@ -110,6 +114,7 @@ def parse_function(text):
             if e is None:
                 return None
             ops.append(dict(op="lx" if e[1] else "ld", k=e[0], st=e[1], **{"as": 0 if m.group(1) == "+=" else 1}))
+            i += 1
             continue
         m = _RE_ADD.match(ln)
         if m:
@@ -117,17 +122,49 @@ def parse_function(text):
             if e is None:
                 return None
             ops.append(dict(op="ix" if e[1] else "add", k=e[0], st=e[1], **{"as": 0 if m.group(1) == "+=" else 1}))
+            i += 1
             continue
-        return None
-    return ops if (seen_init and seen_ret) else None
+        break
+    tail = lines[i:]
+    if kind == "getp":
+        return dict(ops=ops, c=0, w=[]) if len(tail) == 1 and _RE_RET.match(tail[0]) else None
+    if kind in ("get", "typeid"):
+        m = _RE_GET.match(tail[0]) if len(tail) == 1 else None
+        if not m or (m.group(1) or m.group(2)) not in CWIDTH:
+            return None
+        wd = CWIDTH[m.group(1) or m.group(2)]
+        if kind == "typeid":
+            return dict(ops=ops, c=0, w=[]) if wd == 8 else None
+        return dict(ops=ops, c=wd, w=[])
+    if kind == "set":
+        m = _RE_SET.match(tail[0]) if len(tail) == 1 else None
+        if not m or (m.group(1) or m.group(2)) not in CWIDTH:
+            return None
+        return dict(ops=ops, c=CWIDTH[m.group(1) or m.group(2)], w=[])
+    if kind == "len":
+        if len(tail) != 2 or not _RE_ARR.match(tail[0]):
+            return None
+        m = _RE_RETEXPR.match(tail[1])
+        if not m:
+            return None
+        c = 1
+        for term in m.group(1).split("*"):
+            if re.fullmatch(r"\d+", term):
+                c *= int(term)
+            elif re.fullmatch(r"arr\[(\d+)\]", term):
+                w.append(int(term[4:-1]))
+            else:
+                return None
+        return dict(ops=ops, c=c, w=w)
+    return None
 
 
 def norm(ops):
     return [dict(op=o["op"], k=int(o["k"]), st=[[int(a), int(b)] for a, b in o["st"]], **{"as": int(o["as"])}) for o in ops]
 
 
-def real_programs(cls, tx, target):
-    """(type path, function name, text) of every getp accessor the tree's generator emits for class cls"""
+def real_programs(cls, tx, target, kinds=None):
+    """(type path, kind, function name, text) of every get / set / getp / len / typeid accessor the tree's generator emits for class cls"""
     from xobjects import capi
     from xobjects.typeutils import default_conf
     from xobjects.specialize_source import specialize_source
@@ -150,16 +187,18 @@ def real_programs(cls, tx, target):
         if not ok:
             continue
         for src, kernel in capi.methods_from_path(cls, path, default_conf):
-            if kernel is None or not re.match(re.escape(cls._c_type) + r"_getp\d*(_|$)", kernel.c_name):
+            m = None if kernel is None else re.match(re.escape(cls._c_type) + r"_(getp|get|set|len|typeid)\d*(_|$)", kernel.c_name)
+            if not m or (kinds and m.group(1) not in kinds):
                 continue
             text = src if target == "cpu_serial" else specialize_source(src, specialize_for=target)
-            out.append((steps, kernel.c_name, text))
+            out.append((steps, m.group(1), kernel.c_name, text))
     return out
 
 
 # ----------------------------------------------------------------------------- the check
 def model_level(run, pid):
-    targets = {"C02": ["cpu_serial"], "C15": ["opencl", "cuda"]}[pid]
+    targets = {"C02": ["cpu_serial"], "C07": ["cpu_serial"], "C15": ["opencl", "cuda"]}[pid]
+    kinds = {"C07": ("set", "get")}.get(pid)
     jobs = []
     for inst in TIERS[run.tier]:
         for part in range(inst["run"]):
@@ -195,19 +234,19 @@ def model_level(run, pid):
             cls = ns.cls(tx)
         except Exception as ex:      # noqa
             raise C.MachineryError(f"could not build a class for {X.key(tx)[:200]}: {ex}")
-        model = {json.dumps(e["p"], sort_keys=True): norm(e["ops"]) for e in c["progs"]}
+        model = {json.dumps([e["p"], e["kind"]], sort_keys=True): dict(ops=norm(e["ops"]), c=int(e["c"]), w=[int(x) for x in e["w"]]) for e in c["progs"]}
         stats["types"] += 1
         for tgt in targets:
             progs = []
-            for steps, name, text in real_programs(cls, tx, tgt):
+            for steps, kind, name, text in real_programs(cls, tx, tgt, kinds):
                 stats["functions"] += 1
-                ops = parse_function(text)
+                ops = parse_function(text, kind)
                 if ops is None:
                     stats["unparsed"] += 1
                     if len(unparsed_examples) < 3:
                         unparsed_examples.append(dict(function=name, target=tgt, text=text[:600]))
                     continue
-                key = json.dumps(steps, sort_keys=True)
+                key = json.dumps([steps, kind], sort_keys=True)
                 if key not in model:
                     stats["no_model_path"] += 1
                     continue
@@ -217,9 +256,9 @@ def model_level(run, pid):
                     stats["drift"] += 1
                     if len(drift_examples) < 3:
                         drift_examples.append(dict(function=name, target=tgt, real=ops, model=model[key]))
-                progs.append(dict(p=steps, ops=ops, name=name))
+                progs.append(dict(p=steps, kind=kind, name=name, **ops))
             if progs:
-                recs.append(dict(t=c["t"], progs=[dict(p=e["p"], ops=e["ops"]) for e in progs]))
+                recs.append(dict(t=c["t"], progs=[dict(p=e["p"], kind=e["kind"], ops=e["ops"], c=e["c"], w=e["w"]) for e in progs]))
                 meta.append(dict(tx=tx, target=tgt, progs=progs))
     # ---- code -> spec: TLC executes the real programs
     verdicts, tot = validate(recs, PROG_EXTS[run.tier])
@@ -228,6 +267,8 @@ def model_level(run, pid):
     for v, mt, rec in zip(verdicts, meta, recs):
         if v:
             clause = v.split("@")[0]
+            if pid == "C07" and clause.split(":")[-1] not in ("set", "get", "ill-scoped"):
+                continue
             run.report(f"genmodel:{clause}:{mt['target']}:{sig(mt['tx'])}",
                        f"offset program emitted by the tree's generator for a class of type {X.key(mt['tx'])[:300]} ({mt['target']} form) executed by TLC on the image the "
                        f"documented format prescribes: {v[:300]}", dict(genmodel=dict(rec=rec, tx=mt["tx"], names=[e["name"] for e in mt["progs"]], target=mt["target"])))
@@ -238,7 +279,7 @@ def model_level(run, pid):
     run.notes["generator_model"] = info
     run.cov["traces_validated_against_impl"] += len(recs)
     if recs:
-        run.sample(dict(generator_program=dict(t=recs[0]["t"], function=meta[0]["progs"][-1]["name"], ops=meta[0]["progs"][-1]["ops"])))
+        run.sample(dict(generator_program=dict(t=recs[0]["t"], function=meta[0]["progs"][-1]["name"], kind=meta[0]["progs"][-1]["kind"], ops=meta[0]["progs"][-1]["ops"])))
 
 
 def validate(recs, exts):
@@ -281,10 +322,10 @@ def replay(run, pid, rp):
     tx = rp["tx"]
     cls = ns.cls(tx)
     progs = []
-    for steps, name, text in real_programs(cls, tx, rp["target"]):
-        ops = parse_function(text)
+    for steps, kind, name, text in real_programs(cls, tx, rp["target"], {"C07": ("set", "get")}.get(pid)):
+        ops = parse_function(text, kind)
         if ops is not None:
-            progs.append(dict(p=steps, ops=ops))
+            progs.append(dict(p=steps, kind=kind, **ops))
     verdicts, _ = validate([dict(t=rp["rec"]["t"], progs=progs)], PROG_EXTS["thorough"])
     if verdicts[0]:
         run.report(f"genmodel:{verdicts[0].split('@')[0]}:{rp['target']}:{sig(tx)}", verdicts[0][:400], dict(genmodel=rp))
